@@ -34,3 +34,8 @@ Definition eval_cli_quit (signals mapped : list N) (sq eof : bool) (nquits : nat
     | Graceful s g => "graceful(" ++ show_N s ++ "," ++ show_N g ++ ")"
     end
   else "no".
+
+(* C07 liveness: the instant by which every control queued by the history must have been executed *)
+Definition eval_drain_bound (E : env) (ops : list hop) : string :=
+  let ws := fold_left (do_op E fixed) ops [init] in
+  show_N (fold_left N.max (map (fun w => (now w + slack w)%N) ws) 0%N).
